@@ -5,6 +5,8 @@ calls it in-process on the repository's current tree), strips the selector facto
 advice columns to the logical indices A0..A7 of `Sha256Config::advice_cols` (parsed from
 sha256_chip.rs and cross-checked against the lookup arguments of the dump) and renders everything
 as Lean terms of `MidnightZK.C07.Chip.Expr` in lean/MidnightZK/Gen/C07ShaGates.lean.
+The same is done for `Sha512Chip::configure` (`h-c07 --dump-sha512-gates`, gate polynomials only:
+the column layout is shared) into lean/MidnightZK/Gen/C07Sha512Gates.lean.
 Exits non-zero if the dump cannot be produced or has an unexpected shape."""
 import json
 import os
@@ -16,6 +18,7 @@ VERIF = os.path.dirname(os.path.dirname(os.path.abspath(__file__)))
 REPO = os.environ.get("VERIF_REPO", "/repo")
 HARNESS = os.path.join(VERIF, "harness")
 OUT = os.path.join(VERIF, "lean", "MidnightZK", "Gen", "C07ShaGates.lean")
+OUT512 = os.path.join(VERIF, "lean", "MidnightZK", "Gen", "C07Sha512Gates.lean")
 WORK = os.path.join(VERIF, "work", "C07")
 
 SELS = ["maj", "halfch", "Sig0", "Sig1", "sig0", "sig1", "d11", "dA", "dE", "dW", "add"]
@@ -56,6 +59,15 @@ def main():
         sys.stderr.write(p.stdout[-3000:])
         die("gate dump failed")
     d = json.load(open(dump))
+    dump512 = os.path.join(WORK, "sha512gates.json")
+    if os.path.exists(dump512):
+        os.remove(dump512)
+    p = subprocess.run([exe, "--dump-sha512-gates", dump512], cwd=VERIF, stdout=subprocess.PIPE,
+                       stderr=subprocess.STDOUT, text=True)
+    if p.returncode != 0 or not os.path.exists(dump512):
+        sys.stderr.write(p.stdout[-3000:])
+        die("SHA-512 gate dump failed")
+    d512 = json.load(open(dump512))
 
     # logical column order, from the source
     src = open(os.path.join(REPO, "circuits/src/hash/sha256/sha256_chip.rs")).read()
@@ -80,7 +92,7 @@ def main():
     if not re.search(r"let\s+fixed_cols\s*=\s*shared_res\.1\s*;", src512):
         die("cannot find `let fixed_cols = shared_res.1;` in sha512_chip.rs")
 
-    def render(e):
+    def render(e, logical):
         t = e["t"]
         if t == "const":
             return f"(.const {int(e['v'], 16)})"
@@ -89,65 +101,75 @@ def main():
                 die(f"gate queries advice column {e['c']} outside of the chip's columns")
             return f"(.adv {logical[e['c']]} ({e['r']}))"
         if t == "neg":
-            return f"(.neg {render(e['a'])})"
+            return f"(.neg {render(e['a'], logical)})"
         if t == "sum":
-            return f"(.sum {render(e['a'])} {render(e['b'])})"
+            return f"(.sum {render(e['a'], logical)} {render(e['b'], logical)})"
         if t == "prod":
-            return f"(.prod {render(e['a'])} {render(e['b'])})"
+            return f"(.prod {render(e['a'], logical)} {render(e['b'], logical)})"
         if t == "scaled":
-            return f"(.scaled {render(e['a'])} {int(e['v'], 16)})"
+            return f"(.scaled {render(e['a'], logical)} {int(e['v'], 16)})"
         die(f"unsupported expression node {t} in a gate of the SHA-256 chip")
 
-    gates = {}
-    sel_of = {}
-    for g in d["gates"]:
-        short = g["short"]
-        if short in gates:
-            die(f"gate {g['name']} appears twice")
-        polys = []
-        sels = set()
-        for poly in g["polys"]:
-            s, inner = strip_sel(poly)
-            sels.add(s)
-            polys.append(render(inner))
-        if len(sels) != 1:
-            die(f"gate {g['name']} uses several selectors")
-        sel_of[short] = sels.pop()
-        gates[short] = (g["name"], polys)
-    if sorted(gates) != sorted(SELS):
-        die(f"unexpected gate set {sorted(gates)}")
-    if len(set(sel_of.values())) != len(sel_of):
-        die("two gates share a selector")
+    def extract(d, logical, chip):
+        gates = {}
+        sel_of = {}
+        for g in d["gates"]:
+            short = g["short"]
+            if short in gates:
+                die(f"{chip}: gate {g['name']} appears twice")
+            polys = []
+            sels = set()
+            for poly in g["polys"]:
+                s, inner = strip_sel(poly)
+                sels.add(s)
+                polys.append(render(inner, logical))
+            if len(sels) != 1:
+                die(f"gate {g['name']} uses several selectors")
+            sel_of[short] = sels.pop()
+            gates[short] = (g["name"], polys)
+        if sorted(gates) != sorted(SELS):
+            die(f"{chip}: unexpected gate set {sorted(gates)}")
+        if len(set(sel_of.values())) != len(sel_of):
+            die("two gates share a selector")
 
-    # lookups: (q * T_i, q * A_{2i}, q * A_{2i+1}) in the three table columns
-    looks = []
-    if len(d["lookups"]) != 2:
-        die(f"expected two plain-spreaded lookups, found {len(d['lookups'])}")
-    qs = set()
-    tables = set()
-    for i, l in enumerate(d["lookups"]):
-        ins = l["inputs"]
-        if len(ins) != 3:
-            die("lookup does not have three inputs")
-        cols = []
-        for e in ins:
-            s, inner = strip_sel(e)
-            qs.add(s)
-            cols.append(inner)
-        if cols[0]["t"] != "fixed" or cols[0]["r"] != 0 or cols[1]["t"] != "adv" or cols[1]["r"] != 0 \
-                or cols[2]["t"] != "adv" or cols[2]["r"] != 0:
-            die("lookup inputs are not (q*fixed, q*advice, q*advice) at rotation 0")
-        if cols[0]["c"] not in fixed_cols or cols[1]["c"] not in logical or cols[2]["c"] not in logical:
-            die("lookup inputs use columns outside of the chip's columns")
-        looks.append((fixed_cols.index(cols[0]["c"]), logical[cols[1]["c"]], logical[cols[2]["c"]]))
-        tables.add(json.dumps(l["table"], sort_keys=True))
-        if any(t["t"] != "fixed" or t["r"] != 0 for t in l["table"]):
-            die("lookup table expressions are not plain table columns")
-    if len(qs) != 1 or len(tables) != 1:
-        die("the two lookups do not share selector and table")
-    if qs.pop() in sel_of.values():
-        die("q_lookup is also a gate selector")
+        # lookups: (q * T_i, q * A_{2i}, q * A_{2i+1}) in the three table columns
+        looks = []
+        if len(d["lookups"]) != 2:
+            die(f"expected two plain-spreaded lookups, found {len(d['lookups'])}")
+        qs = set()
+        tables = set()
+        for i, l in enumerate(d["lookups"]):
+            ins = l["inputs"]
+            if len(ins) != 3:
+                die("lookup does not have three inputs")
+            cols = []
+            for e in ins:
+                s, inner = strip_sel(e)
+                qs.add(s)
+                cols.append(inner)
+            if cols[0]["t"] != "fixed" or cols[0]["r"] != 0 or cols[1]["t"] != "adv" or cols[1]["r"] != 0 \
+                    or cols[2]["t"] != "adv" or cols[2]["r"] != 0:
+                die("lookup inputs are not (q*fixed, q*advice, q*advice) at rotation 0")
+            if cols[0]["c"] not in fixed_cols or cols[1]["c"] not in logical or cols[2]["c"] not in logical:
+                die("lookup inputs use columns outside of the chip's columns")
+            looks.append((fixed_cols.index(cols[0]["c"]), logical[cols[1]["c"]], logical[cols[2]["c"]]))
+            tables.add(json.dumps(l["table"], sort_keys=True))
+            if any(t["t"] != "fixed" or t["r"] != 0 for t in l["table"]):
+                die("lookup table expressions are not plain table columns")
+        if len(qs) != 1 or len(tables) != 1:
+            die("the two lookups do not share selector and table")
+        if qs.pop() in sel_of.values():
+            die("q_lookup is also a gate selector")
 
+        return gates, looks
+
+    gates, looks = extract(d, logical, "sha256")
+    logical512 = {c: j for j, c in enumerate(adv_cols512)}
+    gates512, looks512 = extract(d512, logical512, "sha512")
+    if looks512 != looks:
+        die("the lookups of the SHA-512 chip do not read the same logical columns as those of the SHA-256 chip")
+    if d512["modulus"] != d["modulus"]:
+        die("the two chips are configured over different fields")
     L = []
     L.append("import MidnightZK.Model.C07.ShaChip")
     L.append("/-! GENERATED by translators/c07_shagates.py from the constraint system built by the REAL")
@@ -185,6 +207,38 @@ def main():
     if old != text:
         open(OUT, "w").write(text)
     print(f"c07_shagates: wrote {os.path.normpath(OUT)}")
+
+    L = []
+    L.append("import MidnightZK.Model.C07.ShaChip")
+    L.append("/-! GENERATED by translators/c07_shagates.py from the constraint system built by the REAL")
+    L.append("`Sha512Chip::configure` of the repository (gate polynomials without their selector factor, advice")
+    L.append("columns renamed to the logical indices of `Sha512Config::advice_cols`; the selectors are named by role:")
+    L.append("`d11` = `q_13x4_12`, `dA` / `dE` / `dW` the operand decompositions, `add` = `q_add_mod_2_64`). Do not edit. -/")
+    L.append("namespace MidnightZK.C07.Gen")
+    L.append("open MidnightZK.C07.Chip")
+    L.append("")
+    L.append("/-- `F::MODULUS` of the running code (SHA-512 chip). -/")
+    L.append(f"def sha512Modulus : Nat := {int(d512['modulus'], 16)}")
+    L.append("/-- the two plain-spreaded lookups of the SHA-512 chip: (tag column index, logical plain column, logical spreaded column). -/")
+    L.append("def sha512Lookups : List (Nat × Nat × Nat) := [" + ", ".join(f"({a}, {b}, {c})" for a, b, c in looks512) + "]")
+    for short in SELS:
+        name, polys = gates512[short]
+        L.append(f"/-- gate `{name}` -/")
+        L.append(f"def gate512_{short} : List Expr := [")
+        L.append("  " + ",\n  ".join(polys))
+        L.append("]")
+    L.append("/-- The polynomials each selector of the SHA-512 chip switches on. -/")
+    L.append("def sha512Gates : Sel → List Expr")
+    L.append("  | .lookup => []")
+    for short in SELS:
+        L.append(f"  | .{short} => gate512_{short}")
+    L.append("")
+    L.append("end MidnightZK.C07.Gen")
+    text = "\n".join(L) + "\n"
+    old = open(OUT512).read() if os.path.exists(OUT512) else None
+    if old != text:
+        open(OUT512, "w").write(text)
+    print(f"c07_shagates: wrote {os.path.normpath(OUT512)}")
     return 0
 
 
